@@ -15,8 +15,9 @@
 (*           (Filters.tla);  Skew  see below.                              *)
 (* Observation                                                             *)
 (*   recs    the printed records in print order:                           *)
-(*           [frame, t (ms), ts (whole s), df, icao, seen (sender's clock  *)
-(*            when the line was read), m |-> receptions [rx, id, t]]       *)
+(*           [frame, t (ms), tu (us), ts (whole s), df, icao, seen (the    *)
+(*            sender's clock when the line was read),                      *)
+(*            m |-> receptions [rx, id, t, tu] in the order listed]        *)
 (*           id = the 6 timestamp bytes of the Beast frame (`nanoseconds`),*)
 (*           which the sender makes unique per receiver                    *)
 (*   tab     what /all serves at the end: [icao, count, first, last]       *)
@@ -41,8 +42,9 @@
 (*                a_order     per receiver, stamps follow the stream order  *)
 (*                a_serial    one serial number per receiver (trace spec)   *)
 (*  (b) dedup     b_once      no reception twice (conservation)             *)
-(*                b_shape     record time = first reception's; members of   *)
-(*                            one receiver in stream order                  *)
+(*                b_shape     record time = its first listed reception's    *)
+(*                            stamp; receptions listed in arrival order     *)
+(*                            (per receiver: stream order; else within Skew)*)
 (*                b_window    every member but the last lies in the window  *)
 (*                b_split     same-frame records are >= W - Skew apart      *)
 (*                b_between   nothing stamped past the expiry, and no other *)
@@ -152,8 +154,14 @@ Clauses(In, W, Skew, cfg, recs, tab, stable) ==
       a_order == \A x, y \in O : (obs[x].rx = obs[y].rx /\ obs[x].pos < obs[y].pos) => obs[x].t <= obs[y].t
       (* -------- (b) deduplication ------------------------------------- *)
       b_once == Cardinality(ObsSet) = Len(obs)
+      (* the record carries the stamp of its FIRST listed reception (t in  *)
+      (* ms, tu the same stamp in microseconds: the code copies the f64),   *)
+      (* and lists its receptions in arrival order: per receiver that is    *)
+      (* the stream order, between receivers a reception listed earlier     *)
+      (* cannot have been stamped Skew or more after one listed later       *)
       b_shape == \A n \in R : LET m == recs[n].m IN
-                   /\ Len(m) >= 1 /\ recs[n].t = m[1].t
+                   /\ Len(m) >= 1 /\ recs[n].t = m[1].t /\ recs[n].tu = m[1].tu
+                   /\ \A j1, j2 \in DOMAIN m : j1 < j2 => m[j1].t < m[j2].t + Skew
                    /\ \A x, y \in O : (obs[x].n = n /\ obs[y].n = n /\ obs[x].j < obs[y].j
                                        /\ obs[x].rx = obs[y].rx) => obs[x].pos < obs[y].pos
       b_window == \A n \in R : \A j \in 1..(Len(recs[n].m) - 1) : recs[n].m[j].t < Exp(n)
